@@ -8,9 +8,10 @@ TECHNIQUE = ("Coq proof that the packets read from the first k bytes of a stream
              "never synthesises a DONE without an end-of-message packet + correspondence with the real reader goroutine on a scripted net.Conn that fails at every byte offset")
 RULE = ("responses as in C02, packetised, written to a scripted net.Conn that delivers the first k bytes (EVERY offset k = 0..len for bounded responses, random read sizes) and then fails with EOF / a reset style error / "
         "a timeout style error; the real reader goroutine runs; the sequence of NextPackage results up to the first error and the elapsed time are compared with the model's prefix. "
+        "Write side: a package is sent through a transport that accepts k bytes and then fails (every k for short messages): error iff k < wire length, accepted bytes = prefix of the model's wire. "
         "Non-trivial = input longer than 40 characters; distinct by input.")
 ASSUMPTIONS = ASSUMPTIONS_COMMON + ["elapsed time until the error is observed by the harness against the configured read timeout (bounded wait), not proved",
-                                    "failures during a request write are covered by C01/C13's harnesses"]
+                                    "failure during a request write: the tx model (C01) gives the complete wire; the harness checks on the real Channel that the send reports an error exactly when the failure falls inside the message and that what the transport accepted is a prefix of that wire (fn 13); no separate theorem"]
 LEVEL_TEXT = ("C14_prefix_then_failure / C14_every_complete_packet: for EVERY stream and EVERY failure offset the reader yields exactly the packets completely contained in the bytes received, then the failure; "
               "C14_channel_prefix: the consumer's packages are a prefix of the complete response's; C14_no_spurious_final_done: without an EOM packet no DONE is synthesised, whatever the bytes. "
               "Partial: the time bound is observed on the real code, not proved.")
